@@ -50,11 +50,16 @@ type WriteCase struct {
 	// InitUnlistable: `spok --init` in nested/dir, which already holds a spokfile and whose mode is 0300
 	// (its owner may enter it and create files, not list it): the existing spokfile stays as it is
 	InitUnlistable bool `json:"init_unlistable,omitempty"`
+	// ROSpok: the spokfile cannot be written by the user running spok (its directory can): --fmt may
+	// fail; whatever it does about that, it does it to the spokfile and to nothing else
+	ROSpok bool `json:"ro_spok,omitempty"`
 }
 
 var writeTreePool = []string{"main.go", "pkg/a.go", "pkg/sub/b.go", "docs/readme.md", "nested/dir/x.txt", "Makefile", "data/", "nested/.hidden", "spokfile.tmp", "spokfile.bak", ".spokfile.swp", "spokfile~"}
 var writeFlags = []string{"--show", "--vars", "--fmt", "--init", "--force", "--quiet", "--json", "--debug"}
-var safeCmds = []string{"echo hi", "true", "printf x", "echo {{.V}}", "echo a b  c", "test -f main.go", "echo done 1>&2", "printf 'working\rdone'"}
+var safeCmds = []string{"echo hi", "true", "printf x", "echo {{.V}}", "echo a b  c", "test -f main.go", "echo done 1>&2", "printf 'working\rdone'",
+	// what the shell spok embeds (a bash dialect) reads as tests and arithmetic, not as redirections
+	"[[ b > a ]] && echo yes", "if [[ {{.V}} > 1 ]]; then echo newer; fi", "echo $((4 > 3))", "[[ a < b ]] || echo no"}
 var invalidSources = map[string][]string{
 	"lexerr":   {"task build( {\n", "X := \"unterminated\n", "task t() {\n    echo hi\n", "$$$\n", "task t() -> {\n}\n"},
 	"parseerr": {"X :=\n", "X\n", "task t(\"a\" \"b\") -> (,", "task () -> (\n"},
@@ -97,6 +102,10 @@ func genWrite(t *rapid.T) WriteCase {
 				stmts = append(stmts, gen.Stmt{Kind: "assign", Name: "W" + string(rune('a'+i)), ValKind: "func", ValText: "join", Args: []gen.Arg{{Str: true, Text: "a"}, {Str: true, Text: "b"}}})
 			default:
 				name := []string{"build", "lint", "default", "check", "zz"}[i]
+				if rapid.IntRange(0, 2).Draw(t, "flaglike_name") == 0 {
+					// a task may be called what a flag or an action is called
+					name = []string{"init", "fmt", "vars", "show", "version"}[i]
+				}
 				st := gen.Stmt{Kind: "task", Name: name}
 				if rapid.Bool().Draw(t, "doc") {
 					st.HasDoc, st.Doc = true, " does "+name
@@ -145,6 +154,7 @@ func genWrite(t *rapid.T) WriteCase {
 	if hasFlag(c.Flags, "--init") && !c.InitElsewhere && rapid.IntRange(0, 3).Draw(t, "init_unlistable") == 0 {
 		c.InitUnlistable, c.Nested = true, true
 	}
+	c.ROSpok = c.Class == "valid" && hasFlag(c.Flags, "--fmt") && !hasFlag(c.Flags, "--init") && rapid.IntRange(0, 2).Draw(t, "ro_spok") == 0
 	c.ProjDir = genProjDir(t)
 	c.ROGitIgnore = c.GitIgnore != nil && rapid.IntRange(0, 3).Draw(t, "ro_gitignore") == 0
 	nt := rapid.IntRange(0, 2).Draw(t, "ntasks")
@@ -236,6 +246,13 @@ func execWrite(s *ev.Shard, b *sandbox.Box, c WriteCase) *rp.Fail {
 			}
 			_ = b.Own()
 		}
+	}
+	if c.ROSpok && c.Class != "absent" {
+		real := filepath.Join(b.Proj, "spokfile")
+		if c.SpokLink {
+			real = filepath.Join(b.Proj, "conf", "spokfile")
+		}
+		_ = os.Chmod(real, 0o444)
 	}
 	before, err := sandbox.Snapshot(b.Home)
 	if err != nil {
